@@ -123,6 +123,10 @@ def run(tier, seed):
                     break
                 last = last_next
                 covered.add((src, dst, action, tuple(args)))
+                if got and got[0] == 'report_changes_when_repeated':
+                    chk.violation(dict(check='history', action=action, outcome='report_changes_when_repeated', tables='|'.join(got[1])),
+                                  'extract_output gives other %s tables when it is asked a second time for the same result' % got[1], dict(history=[(x[2], x[3]) for x in walk[:k + 1]]))
+                    break
                 if got != want:
                     sel = dict(check='history', position=min(k + 1, 3))
                     sel.update(leak_features(states, e))
